@@ -26,6 +26,7 @@ class State:
         self.pending_comps = {}  # handle -> (added, removed) in this locked section
         self.marked = set()
         self.pending_marked = set()
+        self.created_shared = set()
 
 
 def gen_script(rng, max_ops, profile):
@@ -165,8 +166,17 @@ def gen_script(rng, max_ops, profile):
             k = rng.range(0, min(3, len(pals)))
             cs = sorted(set(rng.pick(pals) for _ in range(k)))
             sh = []
-            if spals and depth == 0 and profile.get('create_shared', True) and rng.chance(1, 5):
-                sh = ['s%d' % rng.pick(spals)]
+            cs_mode = profile.get('create_shared', True)
+            if spals and cs_mode and (depth == 0 or cs_mode == 'once') and rng.chance(1, 5):
+                # 'once': at most one creation per shared type and script (known finding C12/creation-time-shared-instance: a second
+                # one would get its own instance and archetype), but also while locked
+                cand_ = [p_ for p_ in spals if not (cs_mode == 'once' and p_ in st.created_shared)]
+                if cand_:
+                    sp_ = rng.pick(cand_)
+                    st.created_shared.add(sp_)
+                    sh = ['s%d' % sp_]
+                    if cs_mode == 'once' and rng.chance(1, 2):
+                        cs = []         # shared components only
             op = 'createarch' if (profile.get('createarch') and rng.chance(1, 6)) else 'create'
             lines.append(('%s %d %s' % (op, tid, ' '.join(map(str, cs + sh)))).rstrip())
             if depth:
@@ -666,6 +676,8 @@ def profile(name):
         p['deps'] = 35        # a dependent that arrives with a master (immediately or at a flush) is constructed, once
         p['weights'].update({'lock': 9, 'unlock': 7, 'assign': 18, 'remove': 12, 'clone': 4})
     elif name == 'C05':
+        p['shared'] = [0, 1]
+        p['create_shared'] = 'once'
         p['threads'] = [1, 2, 3, 4]
         p['pals'] = [0, 1, 2, 3, 4, 5, 7, 8]
         p['weights'].update({'lock': 12, 'unlock': 8, 'create': 22, 'assign': 18, 'remove': 12, 'destroynow': 12, 'destroy': 6})
